@@ -16,9 +16,47 @@ from sansldap import _messages as M
 
 import custom_types as CT
 
+try:
+    FilterSyntaxError = sansldap.FilterSyntaxError
+except AttributeError:  # pragma: no cover
+    from sansldap._filter import FilterSyntaxError  # noqa: F401
+
 OID_PAGED = "1.2.840.113556.1.4.319"
 OID_DELETED = "1.2.840.113556.1.4.417"
 OID_DEACT = "1.2.840.113556.1.4.2065"
+
+
+# ---- BER primitives through the PUBLIC writer (so that renaming the module's private helpers cannot break the harness)
+
+def _writer():
+    from sansldap.asn1 import ASN1Writer
+    return ASN1Writer()
+
+
+def pack_integer(v: int) -> bytes:
+    w = _writer()
+    w.write_integer(v)
+    return bytes(w.get_data())
+
+
+def pack_boolean(v: bool) -> bytes:
+    w = _writer()
+    w.write_boolean(v)
+    return bytes(w.get_data())
+
+
+def pack_octets(b: bytes) -> bytes:
+    w = _writer()
+    w.write_octet_string(b)
+    return bytes(w.get_data())
+
+
+def pack_tlv(cls: int, cons: bool, num: int, content) -> bytes:
+    """identifier + length + content for any tag; `content` may be an object that only has a length (header of a huge value)"""
+    from sansldap.asn1 import ASN1Tag, TagClass
+    w = _writer()
+    w.write_octet_string(content, tag=ASN1Tag(TagClass(cls), num, cons))
+    return bytes(w.get_data())
 
 
 def hx(b) -> str:
